@@ -147,10 +147,12 @@ func (g *Gen) WrapOp(op string, kid *R, depth int) *R {
 		var kv []string
 		keys := []string{"k", "tag", "n", "user"}
 		off := g.rng.Intn(4)
+		var kinds []int
 		for i := 0; i < n; i++ { // distinct keys: logtags overwrites an earlier tag with the same key
 			kv = append(kv, keys[(off+i)%4], g.word())
+			kinds = append(kinds, []int{0, 0, 1, 2}[g.rng.Intn(4)])
 		}
-		return g.node(op, kv, nil, kid)
+		return g.node(op, kv, kinds, kid)
 	case "safedetails":
 		r := g.node(op, []string{g.rng.Pick([]string{"safe %s", "detail", "", "x=%v"})}, nil, kid)
 		if r.In[0] == "safe %s" || r.In[0] == "x=%v" {
